@@ -348,6 +348,30 @@ def gen(seed, run, tier='quick'):
         scenario_probes += [('uu*', km, xu), ('uu*', xu, km),
                             ('qq*', km, xu)]
     if rng.random() < 0.1:
+        # scenario: a type whose dimension cancels (Cycles = Frequency *
+        # Duration with Frequency = 1 / Duration).  Before it is declared
+        # hz * s is a plain number, afterwards a unit of that type - in
+        # every history, also where hz * s was evaluated before
+        def add(act):
+            decl.apply(model, act)
+            decls.append(act)
+        n = model.fresh()
+        dn, s_ = f'T{n}', f'r{n}'
+        add({'a': 'base_type', 'name': dn, 'ref_sym': s_, 'quantum': None,
+             'expect': 'accept'})
+        n = model.fresh()
+        fn, hz_ = f'D{n}', f'a{n}'
+        add({'a': 'derived_type', 'name': fn, 'items': [[dn, -1]],
+             'style': rng.randrange(3), 'ref_sym': hz_, 'auto_ref': False,
+             'quantum': None, 'expect': 'accept', 'dup_dim': False})
+        n = model.fresh()
+        add({'a': 'derived_type', 'name': f'D{n}',
+             'items': [[fn, 1], [dn, 1]], 'style': rng.randrange(3),
+             'ref_sym': f'a{n}', 'auto_ref': False, 'quantum': None,
+             'expect': 'accept', 'dup_dim': False})
+        scenario_probes += [('uu*', hz_, s_), ('uu*', s_, hz_),
+                            ('uu*', hz_, s_), ('qq*', s_, hz_)]
+    if rng.random() < 0.1:
         # scenario: symbols that look like rendered terms.  X*Y has the
         # unit 'x·y'; its square renders as 'x·y²' when written without
         # parentheses - which is the symbol of the unit of X*Y**2, another
@@ -959,6 +983,13 @@ def judge(h):
         n_steps += len(out)
         model = new_model(cfg['variant'])
         model.conv_total = {}
+        probe_model = new_model(cfg['variant'])
+        for d_ in decls:
+            try:
+                decl.apply(probe_model, d_, {})
+            except Exception:       # noqa: only asks for the final dims
+                pass
+        model.dimensionless_type_to_come = () in probe_model.dims
         for d_ in decls:
             if d_['a'] == 'table_conv':
                 model.conv_total[d_['type']] = \
@@ -1116,7 +1147,11 @@ def _precondition(model, p):
     except KeyError:
         return False
     if not bvec:
-        return True
+        # a plain number - unless the program declares a type whose
+        # dimension cancels: then the result is of that type from its
+        # declaration on
+        return not getattr(model, 'dimensionless_type_to_come', False) or \
+            () in model.dims
     return model.result_exists(bvec, num)
 
 
